@@ -33,10 +33,13 @@ pub enum CfgCase {
     /// C16 at the command line: key 0 = output_stream (1 = stdout, 2 = combined), key 1 = keep_crlf (1 = false, 2 = true);
     /// layers cli / inline / doc (0 = unset) on a Markdown or Cram document, observed through `scrut test -r json`
     Cli { key: u8, cli: u8, inline: u8, doc: u8, cram: bool },
-    /// C16 at the command line, one environment variable across two test cases of a Markdown document: FOO in the document
+    /// C16 at the command line, all 9 assignments of (inline, front-matter) for both keys on a Markdown document run with --cram-compat; one environment variable across two test cases of a Markdown document: FOO in the document
     /// defaults (0 unset, 1 = doc), inline on the second test case (0 unset, 1 = inline) and what the first test case does
     /// to it (0 nothing, 1 inline FOO=first, 2 `export FOO=shell`, 3 `unset FOO`, 4 `declare -i FOO`); the second test case prints FOO
     EnvAcross { doc: u8, inline2: u8, first: u8 },
+    /// C16 at the command line: a Markdown document run with `--cram-compat` (which only changes the format default to
+    /// Cram's: combined, CRLF kept) - inline and document defaults still win over it; key / values as in `Cli`
+    Compat { key: u8, inline: u8, doc: u8 },
     /// C17: a test-case configuration given as value index per key (0 = unset) in the extended alphabets
     RoundTrip { values: [usize; 8], env_b: usize },
     /// C17: document configuration subsets (shell, total_timeout, prepend, append, defaults) value indices
@@ -278,6 +281,11 @@ impl Engine for VcConfig {
         for key in 2..4u8 {
             for w in words(if key == 3 { 4 } else { 3 }, 2) {
                 v.push(CfgCase::Cli { key, cli: w[0] as u8, inline: 0, doc: w[1] as u8, cram: false });
+            }
+        }
+        for key in 0..2u8 {
+            for w in words(3, 2) {
+                v.push(CfgCase::Compat { key, inline: w[0] as u8, doc: w[1] as u8 });
             }
         }
         for doc in 0..2u8 {
@@ -550,6 +558,31 @@ impl Engine for VcConfig {
                     other => res.findings.push(Finding::new("C16", "command-line-layer-wins", format!("{describe}: [{want_kind}]"), format!("{other:?}; exit status {:?}; stderr {}", run.status, run.stderr_str().lines().last().unwrap_or("")))),
                 }
             }
+            CfgCase::Compat { key: k, inline, doc } => {
+                use crate::cli::*;
+                let sb = Sandbox::new();
+                res.nontrivial.push(("C16", key));
+                let (name, yaml) = if *k == 0 { ("output_stream", ["", "stdout", "combined"]) } else { ("keep_crlf", ["", "false", "true"]) };
+                let cmd = if *k == 0 { "echo out; echo err >&2" } else { "printf 'a\\r\\n'" };
+                let expectation = if *k == 0 { "out" } else { "a" };
+                let mut text = String::new();
+                if *doc > 0 {
+                    text.push_str(&format!("---\ndefaults:\n  {name}: {}\n---\n\n", yaml[*doc as usize]));
+                }
+                let cfg = if *inline > 0 { format!(" {{{name}: {}}}", yaml[*inline as usize]) } else { String::new() };
+                text.push_str(&format!("# Title\n\n```scrut{cfg}\n$ {cmd}\n{expectation}\n```\n"));
+                sb.write("doc.md", text.as_bytes());
+                let run = run_scrut(&sb, &["test", "--no-color", "-r", "json", "--cram-compat", "doc.md"], &[], std::time::Duration::from_secs(60));
+                // inline, then document defaults, then the Cram format default (value 2 for both keys)
+                let effective = [*inline, *doc, 2].into_iter().find(|v| *v != 0).unwrap();
+                let want_kind = if effective == 1 { "success" } else { "malformed_output" };
+                let kinds = run.json_kinds();
+                res.outcome.push(("C16", hash64(&("compat", *k, effective, kinds.as_ref().ok().cloned()))));
+                match kinds {
+                    Ok(ks) if ks == vec![want_kind.to_string()] => {}
+                    other => res.findings.push(Finding::new("C16", "format-default-is-the-lowest-layer", format!("{name} under --cram-compat: inline={inline} document={doc} (0 unset, 1 = {}, 2 = {}) -> effective {effective}: [{want_kind}]", yaml[1], yaml[2]), format!("{other:?}; exit status {:?}", run.status))),
+                }
+            }
             CfgCase::EnvAcross { doc, inline2, first } => {
                 use crate::cli::*;
                 let sb = Sandbox::new();
@@ -718,6 +751,7 @@ impl Engine for VcConfig {
             CfgCase::Parse { inline, doc, .. } => inline.iter().chain(doc.iter()).filter(|v| **v != 0).count(),
             CfgCase::Cli { cli, inline, doc, .. } => 1000 + (*cli + *inline + *doc) as usize,
             CfgCase::EnvAcross { doc, inline2, first } => 1500 + (*doc + *inline2 + *first) as usize,
+            CfgCase::Compat { key, inline, doc } => 1400 + (*key + *inline + *doc) as usize,
             CfgCase::RoundTrip { values, env_b } => values.iter().filter(|v| **v != 0).count() * 100 + values.iter().sum::<usize>() + env_b,
             CfgCase::DocRoundTrip { values } => values.iter().filter(|v| **v != 0).count() * 100 + values.iter().sum::<usize>(),
         }
